@@ -2,6 +2,7 @@ import DnsVerif.Lemmas.NameFuel
 import DnsVerif.Lemmas.Prefix
 import DnsVerif.Lemmas.ApiMachines
 import DnsVerif.Lemmas.SafeMsg
+import DnsVerif.Lemmas.ExtraB
 
 /-! # C01 — decoding untrusted bytes never panics
 
@@ -12,7 +13,8 @@ The theorems say: for EVERY byte string (of any length below Rust's allocation l
 nine public decode entry points the model returns a value or a documented error — never a panic outcome,
 never fuel exhaustion. Not modelled (exercised by the harness under `catch_unwind` on every accepted
 value, therefore PARTIAL for that clause): derived `Clone`/`PartialEq`/`Debug` and the `Display` impls of
-the record types; re-encoding of returned values is covered by C08 (`encode_no_panic` for all values). -/
+the record types. Re-encoding of returned values: `reencode*_no_panic` below (decoded ⇒ well-formed ⇒ shaped, then
+C08 `encode_no_panic`, which holds for all shaped values). -/
 
 namespace C01
 
@@ -54,10 +56,71 @@ model is the unbounded Rust loop -/
 theorem decodeDns_no_fuel {b : Bytes} (h : b.length < 2 ^ 63) : decodeDns b ≠ .error .fuel := Safe.decodeDns_noFuel h
 theorem decodeRR_no_fuel {b : Bytes} (h : b.length < 2 ^ 63) : decodeRR b ≠ .error .fuel := Safe.decodeRR_noFuel h
 theorem decodeQuestion_no_fuel {b : Bytes} (h : b.length < 2 ^ 63) : decodeQuestion b ≠ .error .fuel := Safe.decodeQuestion_noFuel h
+theorem decodeFlags_no_fuel {b : Bytes} (h : b.length < 2 ^ 63) : decodeFlags b ≠ .error .fuel := Safe.decodeFlags_noFuel h
+theorem decodeName_no_fuel {b : Bytes} (h : b.length < 2 ^ 63) : decodeName b ≠ .error .fuel := Safe.decodeName_noFuel h
+theorem decodeType_no_fuel {b : Bytes} (h : b.length < 2 ^ 63) : decodeType b ≠ .error .fuel := Safe.decodeType_noFuel h
+theorem decodeClass_no_fuel {b : Bytes} (h : b.length < 2 ^ 63) : decodeClass b ≠ .error .fuel := Safe.decodeClass_noFuel h
+theorem decodeQType_no_fuel {b : Bytes} (h : b.length < 2 ^ 63) : decodeQType b ≠ .error .fuel := Safe.decodeQType_noFuel h
+theorem decodeQClass_no_fuel {b : Bytes} (h : b.length < 2 ^ 63) : decodeQClass b ≠ .error .fuel := Safe.decodeQClass_noFuel h
 
 /-- `DecodeError::Offset` is unreachable through the public entry point -/
 theorem decodeDns_no_offset_error {b : Bytes} (h : b.length < 2 ^ 63) : decodeDns b ≠ .error .offset := Safe.decodeDns_noOffset h
 
 example : decodeDns [0, 0] = .error .notEnoughBytes := rfl
+
+/-! ## Every returned value can be re-encoded without a panic
+
+A decoded value satisfies the grammar (C03), hence is well-formed (`RT.*_wf`), hence has the constructor
+shape the encoder theorems need (`RT.wfMsg_shaped`); `EncLim.encode_no_panic` (C08) does the rest. Proofs:
+Lemmas/ExtraB.lean. `encodeFlags` and `encodeCode` (Type/Class/QType/QClass) are total functions into `Bytes` in
+the model (Model/Enc.lean): they have no error outcome at all. -/
+
+theorem reencode_no_panic {b : Bytes} {m : Msg} {d : D} (h : decodeDns b = .ok (m, d)) (s : String) :
+    encodeDns m ≠ .error (.panic s) := ExtraB.reencode_no_panic h s
+theorem reencodeRR_no_panic {b : Bytes} {rr : RR} {d : D} (hb : b.length < 2 ^ 63) (h : decodeRR b = .ok (rr, d))
+    (s : String) : encodeRR rr ≠ .error (.panic s) := ExtraB.reencodeRR_no_panic hb h s
+theorem reencodeQuestion_no_panic {b : Bytes} {q : Question} {d : D} (_ : decodeQuestion b = .ok (q, d)) (s : String) :
+    encodeQuestion q ≠ .error (.panic s) := (EncLim.encode_no_panic s).2.2.2.2.2.1 q
+theorem reencodeName_no_panic {b : Bytes} {n : Name} {d : D} (_ : decodeName b = .ok (n, d)) (s : String) :
+    encodeName n ≠ .error (.panic s) := (EncLim.encode_no_panic s).2.2.2.2.1 n
+theorem reencodeFlags_total {b : Bytes} {f : Flags} {d : D} (_ : decodeFlags b = .ok (f, d)) :
+    (encodeFlags f).length = 2 := rfl
+
+/-- sharper: re-encoding a decoded message either succeeds or reports `Length`, the latter only when the
+uncompressed size of the (possibly compressed) input exceeds 65535 octets; decoded questions and names
+always re-encode -/
+theorem reencode_outcome {b : Bytes} {m : Msg} {d : D} (h : decodeDns b = .ok (m, d)) :
+    (∃ out, encodeDns m = .ok out) ∨ (encodeDns m = .error .length ∧ 65535 < m.usize) := ExtraB.reencode_outcome h
+theorem reencodeQuestion_ok {b : Bytes} {q : Question} {d : D} (hb : b.length < 2 ^ 63)
+    (h : decodeQuestion b = .ok (q, d)) : ∃ out, encodeQuestion q = .ok out := ExtraB.reencodeQuestion_ok hb h
+theorem reencodeName_ok {b : Bytes} {n : Name} {d : D} (h : decodeName b = .ok (n, d)) :
+    encodeName n = .ok (Name.wire n) := ExtraB.reencodeName_ok h
+
+/-- non-vacuity: a response with one question and a compressed A answer is accepted, and the value re-encodes
+(here to the same octets) -/
+private def exB : Bytes :=
+  [0x12, 0x34, 0x81, 0x80, 0, 1, 0, 1, 0, 0, 0, 0, 1, 97, 0, 0, 1, 0, 1,
+   192, 12, 0, 1, 0, 1, 0, 0, 0, 60, 0, 4, 10, 0, 0, 1]
+
+private def exM : Msg :=
+  { id := 0x1234
+    flags := ⟨true, 0, false, false, true, true, false, false, 0⟩
+    qs := [⟨[[97]], 1, 1⟩]
+    an := [⟨[[97]], 1, 1, 60, .fields [.bytes [10, 0, 0, 1]]⟩]
+    ns := []
+    ar := [] }
+
+set_option maxRecDepth 8192 in
+private theorem exB_decoded : decodeDns exB = .ok (exM, { buf := exB, off := 35, lim := 35, cost := 42 }) := rfl
+
+example (s : String) : encodeDns exM ≠ .error (.panic s) := reencode_no_panic exB_decoded s
+set_option maxRecDepth 8192 in
+example : encodeDns exM = .ok exB := rfl
+
+set_option maxRecDepth 8192 in
+example (s : String) : encodeRR ⟨[[97]], 1, 1, 60, .fields [.bytes [10, 0, 0, 1]]⟩ ≠ .error (.panic s) :=
+  reencodeRR_no_panic (b := [1, 97, 0, 0, 1, 0, 1, 0, 0, 0, 60, 0, 4, 10, 0, 0, 1])
+    (d := { buf := [1, 97, 0, 0, 1, 0, 1, 0, 0, 0, 60, 0, 4, 10, 0, 0, 1], off := 17, lim := 17, cost := 21 })
+    (by decide) rfl s
 
 end C01
